@@ -87,6 +87,7 @@ class Actor:
         self.resumed_at = 0.0
         self.touch = _Touched()      # paths whose mtime must be stamped with simulated time (if the step changed them)
         self.next_cost = None
+        self.blocked_on = None
         self.speed = 1.0
         self.priority = 0
         self.crash_at = None         # crash when parked at yield number k (1-based)
@@ -106,6 +107,7 @@ class Actor:
         except BaseException as e:   # noqa: B036 - the outcome of the simulated process
             self.exc = e
         finally:
+            sim.locks.release_actor(self.id)
             if not self.dead:
                 sim.stamp(self)
                 self.state = DONE
@@ -147,6 +149,7 @@ class Sim:
         self.pct_points = ()
         self.script = []
         self.script_actors = []
+        self.locks = LockTable()
         self.outside_writes = []
         self.crash_prefixes = ()
         self.world = None
@@ -267,15 +270,20 @@ class Sim:
             live = [a for a in self.actors if a.state in (NEW, PARKED)]
             if not live:
                 return
-            runnable = [a for a in live if a.start_after <= self.step]
+            runnable = [a for a in live if a.start_after <= self.step
+                        and (a.blocked_on is None or self.locks.available(*a.blocked_on))]
             if not runnable:
-                nxt = min(a.start_after for a in live)
+                waiting = [a for a in live if a.start_after > self.step]
+                if not waiting:
+                    raise StepCap("deadlock: every live loader is blocked on a file lock")
+                nxt = min(a.start_after for a in waiting)
                 self.note(-1, "idle-jump", nxt)
                 self.step = nxt
                 continue
             a = self._pick(runnable)
             if a.state == PARKED and a.crash_now():
                 a.state = CRASHED
+                self.locks.release_actor(a.id)       # the kernel drops a dead process's locks
                 a.t_end = self.step
                 self.note(a.id, "CRASH", a.pending)
                 self.stats["crash:" + a.pending] += 1
@@ -566,6 +574,101 @@ def _sim_urandom(n):
     return out[:n]
 
 
+class LockTable:
+    """Emulation of advisory whole-file locks (flock / lockf) between simulated processes.  The real calls would
+    block the baton holder; here a blocked request polls at yield points, so the scheduler decides who gets the
+    lock next, and a killed process drops its locks as the kernel would."""
+
+    def __init__(self):
+        self.held = {}          # (dev, ino) -> {"ex": owner | None, "sh": set(owners)}; owner = (actor id, fd)
+
+    @staticmethod
+    def key(fd):
+        st = os.fstat(fd)
+        return (st.st_dev, st.st_ino)
+
+    def purge(self, key):
+        ent = self.held.get(key)
+        if not ent:
+            return
+        def alive(owner):
+            try:
+                return self.key(owner[1]) == key
+            except OSError:
+                return False
+        if ent["ex"] is not None and not alive(ent["ex"]):
+            ent["ex"] = None
+        ent["sh"] = {o for o in ent["sh"] if alive(o)}
+
+    def release_actor(self, aid):
+        for ent in self.held.values():
+            if ent["ex"] is not None and ent["ex"][0] == aid:
+                ent["ex"] = None
+            ent["sh"] = {o for o in ent["sh"] if o[0] != aid}
+
+    def available(self, key, owner, exclusive):
+        self.purge(key)
+        ent = self.held.get(key)
+        if not ent:
+            return True
+        if exclusive:
+            return (ent["ex"] is None or ent["ex"] == owner) and not {o for o in ent["sh"] if o != owner}
+        return ent["ex"] is None or ent["ex"] == owner
+
+    def try_lock(self, key, owner, exclusive):
+        self.purge(key)
+        ent = self.held.setdefault(key, {"ex": None, "sh": set()})
+        others_sh = {o for o in ent["sh"] if o != owner}
+        if exclusive:
+            if (ent["ex"] is None or ent["ex"] == owner) and not others_sh:
+                ent["ex"] = owner
+                ent["sh"].discard(owner)
+                return True
+            return False
+        if ent["ex"] is None or ent["ex"] == owner:
+            if ent["ex"] == owner:
+                ent["ex"] = None
+            ent["sh"].add(owner)
+            return True
+        return False
+
+    def unlock(self, key, owner):
+        ent = self.held.get(key)
+        if ent:
+            if ent["ex"] == owner:
+                ent["ex"] = None
+            ent["sh"].discard(owner)
+
+
+def _sim_lock(kind):
+    def locker(fd, cmd, *rest):
+        import fcntl as F
+        sim, a = _actor()
+        if a is None:
+            return REAL[kind](fd, cmd, *rest)
+        fdn = fd if isinstance(fd, int) else fd.fileno()
+        key = LockTable.key(fdn)
+        owner = (a.id, fdn if kind == "flock" else -1)       # POSIX record locks belong to the process
+        if cmd & F.LOCK_UN:
+            sim.yield_point(a, "lock.release", "")
+            sim.locks.unlock(key, owner)
+            return None
+        exclusive = bool(cmd & F.LOCK_EX)
+        sim.yield_point(a, "lock.acquire", "ex" if exclusive else "sh")
+        while not sim.locks.try_lock(key, owner, exclusive):
+            if cmd & F.LOCK_NB:
+                raise BlockingIOError(11, "Resource temporarily unavailable")
+            sim.stats["probe:lock-contended"] += 1
+            a.blocked_on = (key, owner, exclusive)      # not runnable until the lock can be granted
+            try:
+                sim.yield_point(a, "lock.wait", "", cost=0.0)
+            finally:
+                a.blocked_on = None
+        return None
+    locker.__name__ = kind
+    return locker
+
+
 class _SimNames:
     """Replacement for tempfile._name_sequence: replayable per-actor names."""
 
@@ -666,6 +769,13 @@ def install():
     time.monotonic = _mk_clock("monotonic", 1000.0)
     time.perf_counter = _mk_clock("perf_counter", 1000.0)
     os.urandom = _sim_urandom
+    try:
+        import fcntl
+        REAL["flock"], REAL["lockf"] = fcntl.flock, fcntl.lockf
+        fcntl.flock = _sim_lock("flock")
+        fcntl.lockf = _sim_lock("lockf")
+    except ImportError:
+        pass
     builtins.open = _sim_open
     io.open = _sim_open
     os.stat = _mk_stat("stat")
